@@ -712,7 +712,8 @@ def diff(state: State, other: State) -> State:
 
   self_flat = to_flat_state(state)
   other_flat = to_flat_state(other)
-  diff = {k: v for k, v in self_flat.items() if k not in other_flat}
+  other_paths = set(other_flat.paths)
+  diff = {k: v for k, v in self_flat if k not in other_paths}
 
   return from_flat_state(diff)
 
